@@ -9,6 +9,7 @@ A case is {"text": str, "limit": 80|128, "ops": [op, ...]}.  Operations (all thr
   ["reorder", perm]                         problem.cells = [cells[j] for j in perm]
   ["imp", i, particle, x] ["imp_all", i, x] ["vol", i, x] ["del_vol", i] ["u", i, number] ["fill", i, number|None]
   ["lat", i, 1|2|None] ["not_truncated", i, bool] ["vol_calc", bool]
+  ["observe", i]                            str / repr / format_for_mcnp_input of the cell and its modifiers (no effect expected)
   ["write"]                                 write_to_file; the observation that is judged
 Cells are addressed by their position in problem.cells at the time of the operation.
 """
@@ -87,6 +88,7 @@ def api_snapshot(p):
             "fill_multi": bool(f.multiple_universes and f.universes is not None),
         })
     return {"mode": mode, "cells": cells, "flags": [bool(p.print_in_data_block[k]) for k in CLASSES],
+            "imp_outside_mode": any(pshort(x) not in mode for c in p.cells for x in c.importance),
             "vol_calc": bool(p.cells.allow_mcnp_volume_calc)}
 
 
@@ -115,8 +117,13 @@ def model_state(p):
         k = insts.get(id(d))
         if k is not None or not data_inputs or data_inputs[-1] is not None:
             data_inputs.append(k)  # runs of other inputs are one opaque item
+    # identity of the data-block importance trees: particle -> first-occurrence index of id(tree), dict order
+    ids = {}
+    real_tree = []
+    for part, tree in getattr(p.cells._importance, "_real_tree", {}).items():
+        real_tree.append([pshort(part), ids.setdefault(id(tree), len(ids))])
     return {"mode": snap["mode"], "cells": cells, "flags": snap["flags"], "vol_calc": bool(p.cells._volume._calc_by_mcnp),
-            "data_inputs": data_inputs}
+            "data_inputs": data_inputs, "real_tree": real_tree}
 
 
 # --------------------------------------------------------------------------- operations
@@ -173,6 +180,11 @@ def apply_op(p, op):
         cells[op[1]].not_truncated = bool(op[2])
     elif name == "vol_calc":
         p.cells.allow_mcnp_volume_calc = bool(op[1])
+    elif name == "observe":
+        # observations through the public API (formatting mutates the syntax trees, never what is reported)
+        c = cells[op[1]]
+        str(c), repr(c), str(c.importance), repr(c.fill), str(c.universe)
+        c.format_for_mcnp_input(p.mcnp_version)
     else:
         raise AssertionError("unknown op " + name)
 
@@ -224,6 +236,8 @@ def run_impl(case, want_state=True):
                             p.write_to_file(out, overwrite=True)
                         with open(out, encoding="utf-8", newline="") as fh:
                             st["text"] = fh.read()
+                        if want_state:
+                            st["state_after"] = model_state(p)
                     except _Hang:
                         raise
                     except Exception as e:  # noqa: BLE001
@@ -297,6 +311,10 @@ def judge_write(api, text, den, err, check_block=True):
             return None  # documented refusal: FILL with a transform / matrix cannot be printed in the data block
         if err == "ParticleTypeNotInCell" and flags["imp"] and any(c["imp"][m] is None for c in api["cells"] for m in api["mode"]):
             return None  # deliberate refusal: an IMP vector cannot have a hole, and some cell holds no importance for a particle of MODE
+        if err == "ParticleTypeNotInProblem" and api.get("imp_outside_mode"):
+            # a cell holds an importance for a particle that is not in MODE (imp:n,p=1 without a MODE card): outside
+            # the quantifier (well-formed problems); MontePy's deliberate refusal, C13's business
+            return None
         if err == "IllegalState":
             return None  # validate() refuses an incomplete object (no geometry, density without material): deliberate, not per-cell data
         return ("write-raised", _guess_datum(err), err)
@@ -374,7 +392,10 @@ def after_terminator(text):
     return [l for l in lines[i:] if l.strip()]
 
 
-def signature(cls, datum, api, ops_before):
+def signature(cls, datum, api, ops_before, error=None):
     flags = dict(zip(CLASSES, api["flags"]))
-    return {"mechanism": "cell-data", "class": cls, "datum": datum,
-            "flags": (flags.get(datum) if datum in flags else None), "history": history_kind(ops_before)}
+    sig = {"mechanism": "cell-data", "class": cls, "datum": datum,
+           "flags": (flags.get(datum) if datum in flags else None), "history": history_kind(ops_before)}
+    if error is not None:
+        sig["error"] = error  # the exception class: shrinking must not drift from one leak to another refusal
+    return sig
